@@ -305,7 +305,68 @@ class Gen:
                 self.expr()
                 self.t("]")
 
+    COMMENT_AFTER = [" -- c\n", " -- c\n\n", " -- c\n  ", " --[[ c ]]", "\n", " -- c\n -- d\n"]
+    COMMENT_GAPS = ["-- a\n\n\n-- b\n", "-- a\n\n-- b\n\n\n\n-- c\n", "--[[ a ]]\n\n\n\n--[[ b ]] ", "-- a\n-- b\n\n",
+                    "--[=[ a\n]=]\n\n\n"]
+
+    def compound_target(self):
+        """C04: an assignment target of two or more levels (name / call / parenthesised prefix) with line
+        comments between its pieces and after its last token, before the operator"""
+        self.features.add("compound-commented-target")
+        r = self.rng.randrange(4)
+        if r == 0:
+            self.name()
+            self.t("(")
+            self.t(")")
+        elif r == 1:
+            self.t(";")      # a statement must not start with `(` right after an expression
+            self.t("(")
+            self.name()
+            self.t(")")
+        else:
+            self.name()
+        for k in range(self.rng.randrange(1, 4)):
+            if self.chance(1, 3):
+                self.t(self.rng.choice(self.COMMENT_AFTER), "trivia")
+            if self.chance(2, 3):
+                self.t(".")
+                self.t(self.rng.choice(FIELDS), "name")
+            else:
+                self.t("[")
+                self.simple_expr()
+                self.t("]")
+        self.t(self.rng.choice(self.COMMENT_AFTER), "trivia")
+
+    def removable_statement(self):
+        """C04: a statement that a removal rule deletes, with comments several lines apart around it"""
+        self.features.add("removable-with-comment-gaps")
+        self.unused = getattr(self, "unused", 0) + 1
+        self.t("\n" + self.rng.choice(self.COMMENT_GAPS), "trivia")
+        r = self.rng.randrange(4)
+        if r == 0:
+            self.t("do")
+            if self.chance(1, 2):
+                self.t(" -- in\n\n", "trivia")
+            self.t("end")
+        elif r == 1 and self.luau and self.depth == 0:
+            self.t("type", "name")
+            self.t("Unused%d" % self.unused, "name")
+            self.t("=")
+            self.t("number", "name")
+        else:
+            self.t("local")
+            self.t("unused%d" % self.unused, "name")
+            self.t("=")
+            self.t(self.rng.choice(["1", "nil", "{}", "'u'"]), "number")
+        if self.chance(1, 2):
+            self.t(" -- after\n\n\n-- later\n", "trivia")
+        else:
+            self.t("\n", "trivia")
+
     def statement(self):
+        if self.markers and getattr(self.markers, "extras", True) and self.depth < 3 and self.chance(1, 8):
+            self.removable_statement()
+            return
         self.depth += 1
         try:
             r = self.rng.randrange(26)
@@ -339,7 +400,10 @@ class Gen:
                     break
             elif r == 7 and self.luau:
                 self.features.add("compound")
-                self.var()
+                if self.markers and getattr(self.markers, "extras", True) and self.chance(1, 2):
+                    self.compound_target()
+                else:
+                    self.var()
                 self.t(self.rng.choice(COMPOUND))
                 self.expr()
             elif r == 8:
@@ -595,6 +659,11 @@ class Layout:
         parts = []
         prev = None
         for tok in toks:
+            if tok[1] == "trivia":
+                # trivia forced by the grammar (C04: a comment right after an assignment target, comment
+                # gaps in front of a removable statement); it ends with a line break, nothing fuses
+                parts.append(tok[0])
+                continue
             g = self.gap(prev, tok)
             # `return`/prefix-expression ambiguity: a statement must not start with `(` on a new line
             parts.append(g)
